@@ -401,13 +401,14 @@ Definition parser_of (t : string) : option parser :=
   else if String.eqb u "FEATURECOLLECTION" then Some PColl
   else None.
 
-Definition dispatch (doc : dict) : option parser :=
+Definition dispatch (doc : dict) : res (option parser) :=
   match match jget "type" doc with Some (JStr t) => parser_of t | _ => None end with
-  | Some p => Some p
+  | Some p => Ok (Some p)
   | None =>
       match jget "geometry" doc with
-      | Some (JObj g) => match jget "type" g with Some (JStr t) => parser_of t | _ => None end
-      | _ => None
+      | None => Ok None
+      | Some (JObj g) => Ok (match jget "type" g with Some (JStr t) => parser_of t | _ => None end)
+      | Some _ => Err OtherError         (* None.get(...) : AttributeError *)
       end
   end.
 
@@ -418,7 +419,8 @@ Definition parse_feature (docj : json) : res (shape * json) :=
   match docj with
   | JObj doc =>
       match dispatch doc with
-      | Some (PShapeK k) => from_geojson k docj
+      | Ok (Some (PShapeK k)) => from_geojson k docj
+      | Err e => Err e
       | _ => Err ValueError
       end
   | _ => Err TypeError
@@ -446,11 +448,12 @@ Definition parse_geojson (docj : json) : res (parsed * json) :=
   match docj with
   | JObj doc =>
       match dispatch doc with
-      | Some (PShapeK k) =>
+      | Ok (Some (PShapeK k)) =>
           match from_geojson k docj with Ok (s, d) => Ok (PShape s, d) | Err e => Err e end
-      | Some PColl =>
+      | Ok (Some PColl) =>
           match fc_from_geojson docj with Ok (l, d) => Ok (PShapes l, d) | Err e => Err e end
-      | None => Err ValueError
+      | Ok None => Err ValueError
+      | Err e => Err e
       end
   | _ => Err TypeError
   end.
